@@ -296,7 +296,7 @@ check("C34",
 )
 
 check("C49",
-    pkg={"C49.stop": "e2e", "C49.sched": "nebula"}, engine="D-live + C-component", scenarios=["C49.stop", "C49.sched"], scenario_weight={"C49.sched": 20}, gomaxprocs=4,
+    pkg={"C49.stop": "e2e", "C49.sched": "nebula", "C49.query": "nebula"}, engine="D-live + C-component", scenarios=["C49.stop", "C49.sched", "C49.query"], scenario_weight={"C49.sched": 20, "C49.query": 3}, gomaxprocs=4,
     quick=tier(400, 45, shrink_s=20, recheck=0), thorough=tier(40000, 1500, shrink_s=60, recheck=0),
     technique="deterministic-schedule simulation of live nodes: 2-4 real nebula instances in one synctest bubble driven by a seeded stimulus/fault schedule in which Control.Stop is injected at tape-chosen points (before Start, while handshaking, with live or relayed tunnels, in the same burst as a reload or other control calls, twice concurrently, followed or not by a restart); oracles on Stop/Wait return, device and socket closure, and the goroutines left in the bubble",
     rule="one run = 2-4 live nodes for 3-13 s (thorough: 5-45 s) of simulated time with stop-heavy stimulus mix; every node is stopped by the end; distinct = distinct (topology, stimulus-kind set, delivery) abstract hash; non-trivial = at least one Stop hit a node that held pending or established tunnels",
